@@ -107,7 +107,7 @@ def main():
                      "torch operations in LK/Model/TorchOps.lean) and proved to store the model's simRowTrunc for every item, whatever the block size (simRowT_eq, simBlocksT_eq, simBlocksT_row).")
             tech += " + per-run translation of the similarity-row kernel proved equal to the model"
         if pid == "C19":
-            text += " The linear transform of StochasticTopNRanker and the statements after it (exponential-race keys, the pick) are re-translated on every run (translate/py2lean_imp.py → LK/Generated/ImpC19.lean) and proved equal to the model's linearWeights / keys / stochasticRank."
+            text += " The linear transform of StochasticTopNRanker, the scaling statement before it and the statements after it (exponential-race keys, the pick) are re-translated on every run (translate/py2lean_imp.py → LK/Generated/ImpC19.lean) and proved equal to the model's linearWeights / keys / stochasticRank."
         if pid == "C07":
             text += (" The methods of RMSE and MAE (measure_list, compute_list_data, extract_list_metric, global_aggregate) are re-translated on every run (translate/py2lean_agg.py → LK/Generated/AggC07.lean, "
                      "pandas missing-value semantics in LK/Model/SeriesOps.lean) and proved equal to the model's listData / extract / measureList / globalAgg.")
